@@ -76,12 +76,12 @@ def r10a(chk, rid='R10.a'):
     # the generated accessors use exactly these converters
     src = m.src
     chk.ob(rid, PROPS, '<module>', 'accessors are generated for every table key via _toDOMname / _toCSSname',
-           'CSS2Properties._properties.append(_toDOMname(name))' in ast.unparse(m.tree) and 'CSSname = _toCSSname(DOMname)' in ast.unparse(m.tree), 'generation loop changed')
+           'CSS2Properties._properties.append(_toDOMname(name))' in ast.unparse(m.tree) and 'CSSname = _toCSSname(DOMname)' in ast.unparse(m.tree), 'generation loop changed', shape=True)
     # accessors delegate to the name-based API
     dm = chk.repo.mod(DECL)
     for acc, target in (('_getP', 'self.getPropertyValue(CSSName)'), ('_setP', 'self.setProperty(CSSName, value)'), ('_delP', 'self.removeProperty(CSSName)')):
         fn = dm.get(f'CSSStyleDeclaration.{acc}')
-        chk.ob(rid, DECL, f'CSSStyleDeclaration.{acc}', f'delegates to {target}', target in ast.unparse(fn), 'attribute-style access no longer equals access by name')
+        chk.ob(rid, DECL, f'CSSStyleDeclaration.{acc}', f'delegates to {target}', target in ast.unparse(fn), 'attribute-style access no longer equals access by name', shape=True)
 
 
 # ---------------------------------------------------------------------------
@@ -145,7 +145,7 @@ def r10b(chk, rid='R10.b'):
         chk.ob(rid, VARS, q, 'writes both the name map and the item list', w_vars and w_seq, f'_vars written: {w_vars}, seq written: {w_seq}')
     # the serializer lists the item list; keys()/length come from the map
     sm = chk.repo.mod('cssutils/serialize.py')
-    chk.ob(rid, 'cssutils/serialize.py', 'CSSSerializer.do_css_CSSVariablesDeclaration', 'serialises variables.seq', 'variables.seq' in ast.unparse(sm.get('CSSSerializer.do_css_CSSVariablesDeclaration')), '')
+    chk.ob(rid, 'cssutils/serialize.py', 'CSSSerializer.do_css_CSSVariablesDeclaration', 'serialises variables.seq', 'variables.seq' in ast.unparse(sm.get('CSSSerializer.do_css_CSSVariablesDeclaration')), '', shape=True)
 
 
 # ---------------------------------------------------------------------------
@@ -166,10 +166,10 @@ def r10c(chk, rid='R10.c'):
         if node is None:
             raise AnalysisError(f'CSSStyleDeclaration.{name} vanished')
         ok = '__nnames()' in ast.unparse(node)
-        chk.ob(rid, DECL, f'CSSStyleDeclaration.{name}', 'enumerates through __nnames', ok, 'a second way of counting names can disagree with the others')
+        chk.ob(rid, DECL, f'CSSStyleDeclaration.{name}', 'enumerates through __nnames', ok, 'a second way of counting names can disagree with the others', shape=True)
     fn = m.get('CSSStyleDeclaration.__nnames')
     src = ast.unparse(fn)
-    chk.ob(rid, DECL, 'CSSStyleDeclaration.__nnames', 'reverse scan keeping the first occurrence of each normalised name', 'for item in reversed(self.seq)' in src and 'val.name not in names' in src and 'return reversed(names)' in src, src[:200])
+    chk.ob(rid, DECL, 'CSSStyleDeclaration.__nnames', 'reverse scan keeping the first occurrence of each normalised name', 'for item in reversed(self.seq)' in src and 'val.name not in names' in src and 'return reversed(names)' in src, src[:200], shape=True)
     gp = m.get('CSSStyleDeclaration.getProperty')
     g = cfgmod.CFG(gp)
     src = ast.unparse(gp)
@@ -179,7 +179,7 @@ def r10c(chk, rid='R10.c'):
     prio = [n for n in ast.walk(gp) if isinstance(n, ast.If) and text(n.test) == 'val.priority' and any(isinstance(x, ast.Return) and text(x.value) == 'val' for x in n.body)]
     keep = [n for n in ast.walk(gp) if isinstance(n, ast.If) and text(n.test) == 'not found' and any(text(x) == 'found = val' for x in n.body)]
     chk.ob(rid, DECL, 'CSSStyleDeclaration.getProperty', 'an !important entry wins immediately, otherwise the first hit of the reverse scan is kept', bool(prio) and bool(keep), 'cascade rule changed')
-    chk.ob(rid, DECL, 'CSSStyleDeclaration.getProperty', 'names are matched in normalised form', 'nname == val.name' in src or 'val.name == nname' in src, '')
+    chk.ob(rid, DECL, 'CSSStyleDeclaration.getProperty', 'names are matched in normalised form', 'nname == val.name' in src or 'val.name == nname' in src, '', shape=True)
 
 
 def r10d(chk, rid='R10.d'):
@@ -205,9 +205,9 @@ def r10d(chk, rid='R10.d'):
         ok, _ = g.all_paths_pass([ENTRY], lambda n: n in read, targets=[commit[0].id])
     chk.ob(rid, DECL, 'CSSStyleDeclaration.removeProperty', 'the effective value is read before the entries are removed', ok, '')
     src = ast.unparse(rp)
-    chk.ob(rid, DECL, 'CSSStyleDeclaration.removeProperty', 'every entry with the normalised name is filtered out', 'item.value.name == nname' in src and 'newseq.appendItem(item)' in src, '')
+    chk.ob(rid, DECL, 'CSSStyleDeclaration.removeProperty', 'every entry with the normalised name is filtered out', 'item.value.name == nname' in src and 'newseq.appendItem(item)' in src, '', shape=True)
     rets = [text(r.value) for r in ast.walk(rp) if isinstance(r, ast.Return)]
-    chk.ob(rid, DECL, 'CSSStyleDeclaration.removeProperty', 'returns the value read before', rets == ['r'], str(rets))
+    chk.ob(rid, DECL, 'CSSStyleDeclaration.removeProperty', 'returns the value read before', rets == ['r'], str(rets), shape=True)
 
 
 # ---------------------------------------------------------------------------
@@ -239,7 +239,7 @@ def r10e(chk, rid='R10.e'):
            '' if ok else 'a Property object handed in by the caller keeps its old (or no) parent: validation context and back-links are wrong: ' + ' -> '.join(path[-4:]))
     sc = m.get('CSSStyleDeclaration._setCssText')
     src = ast.unparse(sc)
-    chk.ob(rid, DECL, 'CSSStyleDeclaration._setCssText', 'parsed properties are created with parent=self', 'Property(parent=self)' in src, '')
+    chk.ob(rid, DECL, 'CSSStyleDeclaration._setCssText', 'parsed properties are created with parent=self', 'Property(parent=self)' in src, '', shape=True)
     g2 = cfgmod.CFG(sc)
     rep = [n for n in g2.nodes if n.kind == 'for' and 'item.value._parent = self' in ast.unparse(n.stmt)]
     commit = [n for n in g2.nodes if any(call_name(c) == 'self._setSeq' for c in cfgmod.calls_at(n))]
